@@ -184,7 +184,7 @@ async def get_samples_by_timestamp(port: core_ports.BasePort, timestamps: list[i
             if now_ms - timestamp > _CACHE_TIMESTAMP_MIN_AGE:
                 samples_cache[timestamp] = samples[i]
 
-    return ({'value': v, 'timestamp': t} if v is not None else None for t, v in results.items())
+    return ({'value': results[t], 'timestamp': t} if results[t] is not None else None for t in timestamps)
 
 
 async def save_sample(port: core_ports.BasePort, timestamp: int) -> None:
